@@ -27,12 +27,27 @@ LIMIT 0 and an OFFSET past the end).
 
 Guards: no ORDER BY is generated (row order is left open by SQL), rows are compared as
 multisets; legacy ``Query.first()`` is not judged under LIMIT 0 (it applies its own
-LIMIT 1, as documented); FULL OUTER JOIN is not generated through an association table,
+LIMIT 1, as documented); exists() is not judged for DISTINCT + LIMIT/OFFSET (SQLite ignores
+DISTINCT inside EXISTS); FULL OUTER JOIN is not generated through an association table,
 with of_type, or together with a second FROM root; GROUP BY is always on the primary key of
 the grouped entity; aggregates are COUNT / SUM / MIN / MAX over integer columns (no
 float formatting); ``contains()`` / object comparison use persistent objects fetched in
 the same session; ``many_to_one != obj`` is read with the object semantics the comparator
 implements on purpose (``fk != pk OR fk IS NULL``), the docstring leaves it open.
+
+Candidate genuine defects this check reports on the unchanged tree (round 2; repros in
+the final report, proposed patches in selftest/C41/proposed/):
+* ``explicit-left-join-spliced-onto-aliased-same-class`` - ``select(a1.id, A.id, B.id, b2.id)
+  .join(a1.bs).join(A.bs.of_type(b2))`` renders ``JOIN b AS b_1 ON a_1.id = b_1.a_id, a``.
+* ``with-polymorphic-entity-loses-join-with-explicit-froms`` - ``select(B, E).join(B.a)`` with E
+  mapped with_polymorphic="*" renders ``FROM b JOIN a ..., e, eng, mgr`` (cartesian).
+* ``legacy-exists-drops-column-only-from-root`` - ``Query.exists()`` drops a FROM root that is
+  present through the columns only (``query(A, T).select_from(A)...``).
+* ``result-first-one-treat-null-entity-row-as-no-row`` - ``execute(select(C).select_from(B)
+  .outerjoin(B.cs)).first()`` is None when the first row's entity is None; one_or_none() /
+  one() likewise take such a row for "no row".
+* ``subqueryload-embedded-query-loses-second-from-root:OperationalError`` -
+  ``select(B, C).select_from(B).where(C.b.has()).options(subqueryload(B.cs))``.
 
 Fired on the unchanged tree when written (fixed in /repo by 667b36e; proposed patch in
 selftest/C41/proposed_fixes): ``legacy-exists-raises:explicit-select_from-not-first-column-entity``
@@ -320,7 +335,8 @@ def features(d, zoo):
     for j, en in enumerate(d["ents"][1:], 1):
         if en.get("cross"):
             f.add("cross-root")
-            if fam(en["cls"]) == "E" and zoo.e_kind == "joined" and zoo.knobs.get("e_with_poly") == "*":
+            if fam(en["cls"]) == "E" and zoo.e_kind == "joined" and (
+                    zoo.knobs.get("e_with_poly") == "*" or zoo.knobs.get("e_polyload") == "inline"):
                 f.add("wp-cross-root")
             other_alias = any(fam(e2["cls"]) == fam(en["cls"]) and e2.get("alias") and k != j
                               for k, e2 in enumerate(d["ents"]))
@@ -991,7 +1007,11 @@ def one_query(ctx, sa, orm, R, zoo, engine, raw, d, origin):
             ctx.violation(mechanism_of("count-differs", feats),
                           f"count()={cnt} but the query returns {n_for_count} rows; reference SQL: {sql[:300]}",
                           dict(witness, count=cnt))
-        if bool(ex) != (expected_n > 0):
+        if sl and d["distinct"]:
+            # SQLite drops DISTINCT inside EXISTS(...) ("select exists(select distinct x from t
+            # limit 1 offset 2)" is 1 where the inner select is empty): not the ORM's doing
+            ctx.count("exists_not_judged_sqlite_distinct_in_exists")
+        elif bool(ex) != (expected_n > 0):
             ctx.violation(mechanism_of("exists-differs", feats),
                           f"exists()={ex} but the query returns {expected_n} rows ({len(ref)} before LIMIT/OFFSET)",
                           dict(witness, exists=ex))
